@@ -26,6 +26,9 @@ type StoreGen struct {
 	NoDeletion  bool
 	// NoEdgeTimes keeps every created_at inside [TimeBase, TimeBase+TimeRange).
 	NoEdgeTimes bool
+	// SelfRef lets one deletion request in twelve also name itself, at a random position among
+	// its references (its id is then made up, not the hash: the in-memory store does not check ids).
+	SelfRef bool
 	// UniqueTimes draws every created_at at most once (deterministic sequential spec).
 	UniqueTimes bool
 	// HostileContent uses hostile strings as content.
@@ -230,6 +233,15 @@ func (g *StoreGen) deletion() *mocrelay.Event {
 	}
 	if g.R.IntN(3) == 0 {
 		g.extraTags(k)
+	}
+	if g.SelfRef && g.R.IntN(12) == 0 {
+		g.n++
+		id := HexOf("self-referencing deletion request " + strconv.Itoa(g.n))
+		i := g.R.IntN(len(k.Tags) + 1)
+		k.Tags = append(k.Tags[:i:i], append([]mocrelay.Tag{{"e", id}}, k.Tags[i:]...)...)
+		k.Sig = strings.Repeat("0", 128)
+		k.ID = id
+		return k
 	}
 	return Seal(k)
 }
